@@ -385,7 +385,7 @@ static void gen_seed(const Seed& sd, const std::vector<Seed>& all, const std::ve
 
 // Structure-aware degenerate files: arbitrary header counts with a CONSISTENT body (every block has the
 // size its header declares, footer in place), so that the decoder is driven past the count checks.
-static std::string degenerate_block(int tl, char vbyte, size_t timecnt, size_t typecnt, size_t charcnt, size_t leapcnt, size_t isstd, size_t isut, int idx_mode) {
+static std::string degenerate_block(int tl, char vbyte, size_t timecnt, size_t typecnt, size_t charcnt, size_t leapcnt, size_t isstd, size_t isut, int idx_mode, int dst_mode = 0) {
   std::string o = "TZif";
   o.push_back(vbyte);
   o.append(15, '\0');
@@ -393,7 +393,7 @@ static std::string degenerate_block(int tl, char vbyte, size_t timecnt, size_t t
   be4(isut); be4(isstd); be4(leapcnt); be4(timecnt); be4(typecnt); be4(charcnt);
   for (size_t i = 0; i < timecnt; ++i) { long long t = -1000000000LL + static_cast<long long>(i) * 40000000LL; for (int k = tl - 1; k >= 0; --k) o.push_back(static_cast<char>((static_cast<unsigned long long>(t) >> (8 * k)) & 0xff)); }
   for (size_t i = 0; i < timecnt; ++i) o.push_back(static_cast<char>(idx_mode == 0 ? 0 : idx_mode == 1 ? (typecnt ? (i % typecnt) : 0) : (typecnt ? typecnt - 1 : 0)));
-  for (size_t i = 0; i < typecnt; ++i) { unsigned long long off = static_cast<unsigned long long>(static_cast<long long>((i % 2) ? 3600 : -18000)); for (int k = 3; k >= 0; --k) o.push_back(static_cast<char>((off >> (8 * k)) & 0xff)); o.push_back(static_cast<char>(i % 2)); o.push_back(static_cast<char>(charcnt ? (i * 4) % charcnt : 0)); }
+  for (size_t i = 0; i < typecnt; ++i) { unsigned long long off = static_cast<unsigned long long>(static_cast<long long>((i % 2) ? 3600 : -18000)); for (int k = 3; k >= 0; --k) o.push_back(static_cast<char>((off >> (8 * k)) & 0xff)); o.push_back(static_cast<char>(dst_mode == 0 ? (i % 2) : dst_mode == 1 ? 1 : 0)); o.push_back(static_cast<char>(charcnt ? (i * 4) % charcnt : 0)); }
   for (size_t i = 0; i < charcnt; ++i) o.push_back((i % 4) == 3 ? '\0' : static_cast<char>('A' + (i % 4)));
   for (size_t i = 0; i < leapcnt; ++i) { o.append(tl, '\0'); o.append(4, '\0'); }
   o.append(isstd, '\0');
@@ -410,18 +410,19 @@ static void gen_degenerate(bool thorough, size_t cap, Sel& sel, const Emit& emit
   for (const H1& a : v1s) for (size_t tc : tcs) for (size_t ty : tys) for (size_t cc : ccs) for (int isx = 0; isx < 3; ++isx) for (size_t lc = 0; lc < 2; ++lc) for (int im = 0; im < 3; ++im) {
     if (!thorough && im == 1 && ty > 2) continue;
     const size_t ind = isx == 0 ? 0 : isx == 1 ? ty : ty + 1;
-    for (const char* f : foots) {
+    for (const char* f : foots) for (int dm = 0; dm < 3; ++dm) {
+      if (dm && (&a != &v1s[0] || lc)) continue;   // all-DST / no-DST type tables: under the ordinary version-1 stub, no leap records
       long long me_;
       if (!sel.take(&me_)) continue;
-      std::string m = degenerate_block(4, '2', a.timecnt, a.typecnt, a.charcnt, a.leapcnt, a.isstd, a.isut, 0) + degenerate_block(8, '2', tc, ty, cc, lc, ind, ind, im) + "\n" + f + "\n";
+      std::string m = degenerate_block(4, '2', a.timecnt, a.typecnt, a.charcnt, a.leapcnt, a.isstd, a.isut, 0) + degenerate_block(8, '2', tc, ty, cc, lc, ind, ind, im, dm) + "\n" + f + "\n";
       if (declared_len(m) > cap) continue;
-      emit(me_, std::string("degenerate:v1=") + a.name + ",timecnt=" + std::to_string(tc) + ",typecnt=" + std::to_string(ty) + ",charcnt=" + std::to_string(cc) + ",ind=" + std::to_string(ind) + ",leap=" + std::to_string(lc) + ",idx=" + std::to_string(im) + ",footer=" + f + ":synthetic", m, nodev);
+      emit(me_, std::string("degenerate:v1=") + a.name + ",timecnt=" + std::to_string(tc) + ",typecnt=" + std::to_string(ty) + ",charcnt=" + std::to_string(cc) + ",ind=" + std::to_string(ind) + ",leap=" + std::to_string(lc) + ",idx=" + std::to_string(im) + ",dst=" + std::to_string(dm) + ",footer=" + f + ":synthetic", m, nodev);
     }
     // and as a version-1 file (single block)
     long long me_;
-    if (sel.take(&me_)) {
-      std::string m = degenerate_block(4, '\0', tc, ty, cc, lc, ind, ind, im);
-      emit(me_, std::string("degenerate-v1:timecnt=") + std::to_string(tc) + ",typecnt=" + std::to_string(ty) + ",charcnt=" + std::to_string(cc) + ",ind=" + std::to_string(ind) + ",leap=" + std::to_string(lc) + ",idx=" + std::to_string(im) + ":synthetic", m, nodev);
+    for (int dm = 0; dm < 3; ++dm) if (sel.take(&me_)) {
+      std::string m = degenerate_block(4, '\0', tc, ty, cc, lc, ind, ind, im, dm);
+      emit(me_, std::string("degenerate-v1:dst=") + std::to_string(dm) + ",timecnt=" + std::to_string(tc) + ",typecnt=" + std::to_string(ty) + ",charcnt=" + std::to_string(cc) + ",ind=" + std::to_string(ind) + ",leap=" + std::to_string(lc) + ",idx=" + std::to_string(im) + ":synthetic", m, nodev);
     }
   }
 }
@@ -478,6 +479,11 @@ int main(int argc, char** argv) {
                           "EST5EDT4:59:59,0/0,J365/24:00:01", "EST5EDT,0/0,J365/25", "EST5EDT,0/0,J365/24", "EST5EDT,0/0,J365/26", "AAA0BBB-24,M6.1.0/0,M6.1.0/25", "AAA-24BBB0,J100,J101"};
   for (const char* f : stress) footers.push_back(f);
   footers.push_back(std::string(300, 'A') + "5");
+  footers.push_back(std::string("EST5EDT,M3.2.0") + std::string(1, '\0') + ",M11.1.0");
+  footers.push_back(std::string("EST") + std::string(1, '\0') + "5");
+  footers.push_back("\xff\xfe\xfd" "5");
+  footers.push_back("<\xff>5<\x80>,M3.2.0,M11.1.0");
+  footers.push_back(std::string(70000, 'A') + "5");
   footers.push_back("<" + std::string(300, '+') + ">5<" + std::string(300, '-') + ">4,M3.2.0,M11.1.0");
   total.counters["footer_corpus"] = footers.size();
   const size_t cap = (a.thorough() ? 512u : 64u) << 20;
